@@ -285,6 +285,9 @@ TABLE = [
     ("roentgen", "2.58e-4", {"A": 1, "s": 1, "kg": -1}, None),
     ("biot", 10, {"A": 1}, "Bi"),
     ("abampere", 10, {"A": 1}, "abA"),
+    # magnetomotive force: the SI unit is the ampere (the "turn" is a count); 1 gilbert = 10/(4 pi) A
+    ("ampere_turn", 1, {"A": 1}, None),
+    ("gilbert", F(10) / (4 * F(PI)), {"A": 1}, None),
     ("abcoulomb", 10, {"A": 1, "s": 1}, "abC"),
     ("abvolt", "1e-8", {"kg": 1, "m": 2, "s": -3, "A": -1}, "abV"),
     ("abohm", "1e-9", {"kg": 1, "m": 2, "s": -3, "A": -2}, None),
